@@ -449,6 +449,9 @@ pub fn run_shard(ctx: &mut Ctx) {
     let quick_n = 120u64;
     let mut h = 0u64;
     let is07 = ctx.prop == "C07";
+    if is07 {
+        full_queue_rounds(ctx, &mut r);
+    }
     loop {
         if ctx.tier == Tier::Quick && h >= quick_n {
             break;
@@ -521,6 +524,12 @@ pub fn run_shard(ctx: &mut Ctx) {
         }
         util::remove_dir(&dir);
     }
+}
+
+pub fn full_queue_rounds(ctx: &mut Ctx, r: &mut Rng) {
+    let n = if ctx.tier == Tier::Quick { 2 } else { 30 };
+    let (t0, b) = (ctx.t0, ctx.budget_s);
+    crate::props::maxbatch::run(&mut ctx.out, n, r, &|| util::now_s() - t0 < b + 20.0);
 }
 
 pub fn replay(vj: &serde_json::Value, is07: bool) -> Option<Viol> {
